@@ -4,7 +4,10 @@
 //        Euclidean float32 vectors: every insertion order of n distinct points (quick: n = 5, thorough: n = 6),
 //        inserted one by one (Add) or - the points after the split - in one AddBatch; every split point j and
 //        every subset of the first j points deleted before the rest is inserted (so also: everything deleted,
-//        then new vectors added); no vacuum; queries: every point and three other positions, k = 1, 3, n
+//        then new vectors added); with one point fewer (quick: 4, thorough: 5) additionally every subset of the
+//        points inserted later deleted at the end (two rounds of deletions around an insertion); no vacuum;
+//        plus 60 seeded data sets of 8 four-dimensional vectors (= 2*M: more neighbours than M on the base
+//        layer), 25 seeded queries each with the default search width, before and after one refine pass; queries: every point and three other positions, k = 1, 3, n
 // rule: for every history and query the distances of the returned results must equal the k smallest
 //        distances among the live vectors (ties therefore allowed), every returned id must be live and
 //        appear once; non-trivial = at least one vector was deleted and at least one is live
@@ -18,6 +21,7 @@ package hnsw
 import (
 	"fmt"
 	"math"
+	"math/rand"
 	"os"
 	"sort"
 	"testing"
@@ -38,7 +42,8 @@ func TestGovcBounded(t *testing.T) {
 		perm[i] = i
 	}
 	explored, violations, nontrivial, samples := 0, 0, 0, 0
-	check := func(order []int, split int, delMask int, batch bool) {
+	check := func(order []int, split int, delMask int, lateMask int, batch bool) {
+		n := len(order)
 		idx, err := New(4, 50, distance.Euclidean, distance.Float32, "", "")
 		if err != nil {
 			fmt.Println("GOVC-BOUNDED-ERROR", err)
@@ -81,7 +86,14 @@ func TestGovcBounded(t *testing.T) {
 				live[i] = true
 			}
 		}
-		queries := append(append([][]float32{}, pts...), extra...)
+		for b, i := range order[split:] {
+			if lateMask&(1<<b) != 0 {
+				idx.Delete(name(i))
+				delete(live, i)
+				deleted++
+			}
+		}
+		queries := append(append([][]float32{}, pts[:n]...), extra...)
 		for _, q := range queries {
 			var want []float64
 			for i := range live {
@@ -131,7 +143,7 @@ func TestGovcBounded(t *testing.T) {
 				if bad != "" {
 					violations++
 					if violations <= 6 {
-						fmt.Printf("GOVC-BOUNDED-VIOLATION insertion order %v, first %d inserted, deleted mask %b of those, rest by %s, query %v k=%d: %s\n", order, split, delMask, map[bool]string{true: "AddBatch", false: "Add"}[batch], q, k, bad)
+						fmt.Printf("GOVC-BOUNDED-VIOLATION insertion order %v, first %d inserted, deleted mask %b of those, rest by %s, then deleted mask %b of the rest, query %v k=%d: %s\n", order, split, delMask, map[bool]string{true: "AddBatch", false: "Add"}[batch], lateMask, q, k, bad)
 					}
 				} else if samples < 3 && deleted > 0 && k == 3 && explored%997 == 5 {
 					samples++
@@ -140,26 +152,107 @@ func TestGovcBounded(t *testing.T) {
 			}
 		}
 	}
-	var rec func(k int)
-	rec = func(k int) {
-		if k == n {
+	var rec func(perm []int, k int, twoRounds bool)
+	rec = func(perm []int, k int, twoRounds bool) {
+		m := len(perm)
+		if k == m {
 			order := append([]int(nil), perm...)
-			for split := 1; split <= n; split++ {
+			for split := 1; split <= m; split++ {
 				for delMask := 0; delMask < 1<<split; delMask++ {
-					check(order, split, delMask, false)
-					if split < n {
-						check(order, split, delMask, true)
+					lateMasks := 1
+					if twoRounds {
+						lateMasks = 1 << (m - split)
+					}
+					for late := 0; late < lateMasks; late++ {
+						if twoRounds && late == 0 {
+							continue // covered by the single-round run
+						}
+						check(order, split, delMask, late, false)
+						if split < m {
+							check(order, split, delMask, late, true)
+						}
 					}
 				}
 			}
 			return
 		}
-		for i := k; i < n; i++ {
+		for i := k; i < m; i++ {
 			perm[k], perm[i] = perm[i], perm[k]
-			rec(k + 1)
+			rec(perm, k+1, twoRounds)
 			perm[k], perm[i] = perm[i], perm[k]
 		}
 	}
-	rec(0)
+	rec(perm, 0, false)
+	rec(append([]int(nil), perm[:n-1]...), 0, true)
+	// 2*M = 8 vectors of dimension 4 (seeded normal): the base layer holds more neighbours than M, so a
+	// refine pass has something to prune; default search width
+	for trial := 0; trial < 60; trial++ {
+		rng := rand.New(rand.NewSource(int64(400 + trial)))
+		vec := func() []float32 {
+			v := make([]float32, 4)
+			for i := range v {
+				v[i] = float32(rng.NormFloat64())
+			}
+			return v
+		}
+		vecs := make([][]float32, 8)
+		idx, err := New(4, 200, distance.Euclidean, distance.Float32, "", "")
+		if err != nil {
+			fmt.Println("GOVC-BOUNDED-ERROR", err)
+			return
+		}
+		for i := range vecs {
+			vecs[i] = vec()
+			idx.Add(fmt.Sprintf("p%d", i), append([]float32(nil), vecs[i]...))
+		}
+		for phase := 0; phase < 2; phase++ {
+			if phase == 1 && !idx.MaintenanceRun("refine") {
+				fmt.Println("GOVC-BOUNDED-ERROR refine did not run")
+				break
+			}
+			for qn := 0; qn < 25; qn++ {
+				q := vec()
+				var want []float64
+				for _, v := range vecs {
+					var d float64
+					for j := range v {
+						x := float64(v[j] - q[j])
+						d += x * x
+					}
+					want = append(want, d)
+				}
+				sort.Float64s(want)
+				for _, k := range []int{1, 3} {
+					explored++
+					nontrivial++
+					res := idx.SearchWithScores(q, k, nil, 0)
+					var got []float64
+					for _, r := range res {
+						id, _ := idx.GetExternalID(r.DocID)
+						var pi int
+						fmt.Sscanf(id, "p%d", &pi)
+						var d float64
+						for j := range q {
+							x := float64(vecs[pi][j] - q[j])
+							d += x * x
+						}
+						got = append(got, d)
+					}
+					sort.Float64s(got)
+					bad := len(got) != k
+					for i := 0; !bad && i < k; i++ {
+						bad = math.Abs(got[i]-want[i]) > 1e-9
+					}
+					if bad {
+						violations++
+						if violations <= 6 {
+							fmt.Printf("GOVC-BOUNDED-VIOLATION 8 seeded 4-dimensional vectors (data set %d), %s, query %v k=%d: distances of the results %v, brute-force top-%d %v\n", trial, map[int]string{0: "as built by Add", 1: "after one refine pass"}[phase], q, k, got, k, want[:k])
+						}
+					}
+				}
+			}
+		}
+		idx.Close()
+	}
 	fmt.Printf("GOVC-BOUNDED-DONE explored=%d nontrivial=%d violations=%d\n", explored, nontrivial, violations)
 }
